@@ -60,16 +60,17 @@ class Deseasonalizer(_SeriesToSeriesTransformer):
 
     def _align_seasonal(self, y):
         """Align seasonal components with y's time index"""
-        shift = (
-            -_get_duration(
-                y.index[0],
-                self._y_index[0],
-                coerce_to_int=True,
-                unit=_get_freq(self._y_index),
-            )
-            % self.sp
+        # the phase of every time point of y relative to the start of the training
+        # series; y's index may have gaps (e.g. forecasts for a gapped horizon)
+        unit = _get_freq(self._y_index)
+        steps = np.array(
+            [
+                _get_duration(t, self._y_index[0], coerce_to_int=True, unit=unit)
+                for t in y.index
+            ],
+            dtype=int,
         )
-        return np.resize(np.roll(self.seasonal_, shift=shift), y.shape[0])
+        return np.asarray(self.seasonal_)[steps % self.sp]
 
     def fit(self, Z, X=None):
         """Fit to data.
